@@ -10,7 +10,7 @@ PRE_STRUCTS = r'''
 struct strm { long hdr; const char *data; unsigned long size; };          /* std::string: opaque header word, bytes, length */
 struct pair_us { unsigned first; struct strm second; };                  /* std::pair<const unsigned, const std::string> */
 struct map_m { int dummy; };                                             /* std::map<unsigned, const std::string>: state is ghost (single witness) */
-struct iter_m { _Bool end; struct pair_us *p; };                         /* map iterator */
+struct iter_m { _Bool end; unsigned key; _Bool isw; };                   /* map iterator: at end / the key it stands on / whether that is the watched entry */
 struct pair_ib { struct iter_m first; _Bool second; };                   /* std::pair<iterator, bool> */
 '''
 PRELUDE = r'''
@@ -22,6 +22,7 @@ unsigned g_wkey; _Bool g_wpresent; struct pair_us g_wentry;              /* memb
 _Bool g_empty; unsigned g_maxkey;                                        /* summaries: the map is empty / its largest key */
 #define STORE_OK (!(g_wpresent && g_empty) && (!g_wpresent || g_maxkey >= g_wkey) && (!g_wpresent || g_wentry.first == g_wkey))
 struct pair_us g_other;                                                  /* an entry for some other key (arbitrary content) */
+_Bool g_found_valid; unsigned g_found_key;                               /* one further key known to be present: the last one a lookup found */
 /* ---- ASSUMED: std::string ---- */
 void str_from_bytes(struct strm *s, const char *p, unsigned long n, void *alloc)
 {
@@ -42,9 +43,9 @@ struct pair_ib map_insert(struct map_m *m, struct pair_us *v)
   if (v->first == g_wkey) {
     if (g_wpresent) { r.second = 0; }                                    /* insert does not overwrite */
     else { g_wpresent = 1; g_wentry = *v; r.second = 1; }
-    r.first.end = 0; r.first.p = &g_wentry;
+    r.first.end = 0; r.first.key = g_wkey; r.first.isw = 1;
   } else {
-    r.second = nondet_bool(); r.first.end = 0; g_other.first = v->first; r.first.p = &g_other;
+    r.second = nondet_bool(); r.first.end = 0; r.first.key = v->first; r.first.isw = 0;
   }
   if (r.second) { if (g_empty || v->first > g_maxkey) g_maxkey = v->first; g_empty = 0; }
   return r;
@@ -52,19 +53,32 @@ struct pair_ib map_insert(struct map_m *m, struct pair_us *v)
 struct iter_m map_find(struct map_m *m, const unsigned *k)
 {
   struct iter_m it;
-  if (*k == g_wkey) { it.end = !g_wpresent; it.p = &g_wentry; }
-  else { it.end = nondet_bool(); if (g_empty || *k > g_maxkey) it.end = 1; g_other.first = *k; it.p = &g_other; }
+  it.key = *k;
+  if (*k == g_wkey) { it.end = !g_wpresent; it.isw = 1; }
+  else {
+    it.end = nondet_bool(); if (g_empty || *k > g_maxkey) it.end = 1; it.isw = 0;
+    if (g_found_valid && g_found_key == *k) it.end = 0;                    /* a key found before (and not erased since) is found again */
+    if (!it.end) { g_found_valid = 1; g_found_key = *k; }
+  }
   return it;
 }
-struct iter_m map_end(struct map_m *m) { struct iter_m it; it.end = 1; it.p = 0; return it; }
-_Bool iter_eq(const struct iter_m *a, const struct iter_m *b) { return a->end == b->end && (a->end || a->p == b->p); }
+struct iter_m map_end(struct map_m *m) { struct iter_m it; it.end = 1; it.key = 0; it.isw = 0; return it; }
+_Bool iter_eq(const struct iter_m *a, const struct iter_m *b) { return a->end == b->end && (a->end || a->key == b->key); }
 _Bool iter_ne(const struct iter_m *a, const struct iter_m *b) { return !iter_eq(a, b); }
-struct pair_us *iter_arrow(const struct iter_m *it) { __CPROVER_assert(!it->end, "map iterator dereferenced at end()"); return it->p; }
+struct pair_us g_cursor;                                                 /* the entry of a key other than the watched one: key exact, text arbitrary */
+struct pair_us *iter_arrow(const struct iter_m *it)
+{
+  __CPROVER_assert(!it->end, "map iterator dereferenced at end()");
+  if (it->isw) return &g_wentry;
+  g_cursor.first = it->key; g_cursor.second.hdr = nondet_long(); g_cursor.second.data = 0; g_cursor.second.size = nondet_ulong();
+  return &g_cursor;
+}
 _Bool map_empty(struct map_m *m) { return g_empty; }
 unsigned long map_erase(struct map_m *m, const unsigned *k)
 {
   unsigned long n;
   if (*k == g_wkey) { n = g_wpresent; g_wpresent = 0; } else n = nondet_bool();
+  if (g_found_valid && g_found_key == *k) g_found_valid = 0;
   if (n) {                                                                /* the summaries may change: the map may have become empty, the maximum may have dropped */
     _Bool e = nondet_bool(); unsigned mk = nondet_uint();
     __CPROVER_assume(mk <= g_maxkey && !(g_wpresent && e) && (!g_wpresent || mk >= g_wkey));
@@ -72,13 +86,32 @@ unsigned long map_erase(struct map_m *m, const unsigned *k)
   }
   return n;
 }
-struct pair_us g_last;
-struct iter_m map_rbegin(struct map_m *m) { struct iter_m it; it.end = g_empty; g_last.first = g_maxkey; it.p = &g_last; return it; }
+/* ++itr: the next larger key of the map (ISO: std::map iterates in ascending key order); the watched key is never skipped */
+struct iter_m *iter_inc(struct iter_m *it)
+{
+  __CPROVER_assert(!it->end, "map iterator incremented at end()");
+  unsigned k = it->key; _Bool e = nondet_bool(); unsigned nk = nondet_uint();
+  __CPROVER_assume(e || (nk > k && nk <= g_maxkey));
+  __CPROVER_assume(!(k < g_maxkey) || !e);                                /* the largest key is in the map: iteration reaches it */
+  __CPROVER_assume(!(g_wpresent && k < g_wkey) || (!e && nk <= g_wkey));   /* cannot jump over the watched key */
+  __CPROVER_assume(g_wpresent || e || nk != g_wkey);
+  it->end = e;
+  if (!e) { it->key = nk; it->isw = (nk == g_wkey); }
+  return it;
+}
+/* ---- ghost: what the range retrieval handed to the callback ---- */
+unsigned g_cb_records; int g_cb_done; unsigned g_cb_lastkey; _Bool g_cb_order_ok, g_cb_w_seen, g_cb_after_done, g_cb_stop_at_w; unsigned g_cb_w_count;
+unsigned g_rctx_begin, g_rctx_end, g_rctx_interrupted; const char *g_cb_w_data;
+struct FIX8_Session_RetransmissionContext;
+_Bool callback_invoke(void *session, long pmf, const struct pair_us *with, struct FIX8_Session_RetransmissionContext *rctx);
+unsigned ses_get_next_send_seq(const void *s) { return nondet_uint(); }
+void pair_us_ctor_int_cstr(struct pair_us *p, int *k, const char *v) { p->first = (unsigned)*k; p->second.hdr = nondet_long(); p->second.data = v; p->second.size = 0; }
+struct iter_m map_rbegin(struct map_m *m) { struct iter_m it; it.end = g_empty; it.key = g_maxkey; it.isw = 0; return it; }
 '''
 POST = r'''
 static void mk_store(void)
 {
-  g_wkey = nondet_uint(); g_wpresent = nondet_bool(); g_empty = nondet_bool(); g_maxkey = nondet_uint();
+  g_wkey = nondet_uint(); g_wpresent = nondet_bool(); g_empty = nondet_bool(); g_maxkey = nondet_uint(); g_found_valid = 0;
   g_wentry.first = g_wkey; g_wentry.second.hdr = nondet_long(); g_wentry.second.size = nondet_ulong();
   char *d = malloc(8); __CPROVER_assume(d != 0); g_wentry.second.data = d;
   __CPROVER_assume(STORE_OK);
@@ -136,6 +169,35 @@ void h_nearest(void)
   __CPROVER_assert(!(g_wpresent && req <= g_wkey && g_wkey <= last && g_wkey != 0) || (r != 0 && r <= g_wkey), "C26.mem.nearest_not_above_any_stored_number_in_range");
   VACUITY_PROBE();
 }
+_Bool callback_invoke(void *session, long pmf, const struct pair_us *with, struct FIX8_Session_RetransmissionContext *rctx)
+{
+  if (g_cb_done) g_cb_after_done = 1;
+  g_rctx_begin = rctx->_begin; g_rctx_end = rctx->_end;
+  if (rctx->_no_more_records) { if (g_cb_done < 100) g_cb_done++; return 1; }
+  g_cb_records++;
+  if (!(with->first > g_cb_lastkey)) g_cb_order_ok = 0;
+  g_cb_lastkey = with->first;
+  if (with->first == g_wkey) { if (g_cb_w_count < 100) g_cb_w_count++; g_cb_w_data = with->second.data; }
+  return 1;                                                                /* a callback that asks to stop is exercised in h_range_stop */
+}
+/* range retrieval: exactly the stored records of [from, to] (to = 0: up to the last), ascending, then the completion signal */
+void h_range(void)
+{
+  struct FIX8_MemoryPersister mp; mk_store(); int session;
+  unsigned from = nondet_uint(), to = nondet_uint();
+  __CPROVER_assume(from >= 1 && g_wkey != 0 && (g_empty || (g_maxkey >= 1 && g_maxkey < 4294967295u)));
+  g_cb_records = 0; g_cb_done = 0; g_cb_lastkey = 0; g_cb_order_ok = 1; g_cb_w_count = 0; g_cb_after_done = 0; g_cb_w_data = 0;
+  unsigned last = g_empty ? 0 : g_maxkey, finish = to == 0 ? last : to;
+  unsigned r = mper_get_range(&mp, from, to, &session, 0);
+  _Bool w_in_range = g_wpresent && from <= g_wkey && g_wkey <= finish;
+  __CPROVER_assert(g_cb_done == 1 && !g_cb_after_done, "C26.mem.range.completion_signalled_exactly_once_and_last");
+  __CPROVER_assert(g_cb_order_ok, "C26.mem.range.records_visited_in_ascending_order");
+  __CPROVER_assert(g_cb_w_count == (w_in_range ? 1u : 0u), "C26.mem.range.visits_exactly_the_stored_records_in_range");
+  __CPROVER_assert(!w_in_range || g_cb_w_data == g_wentry.second.data, "C26.mem.range.record_text_is_the_stored_text");
+  __CPROVER_assert(r == g_cb_records, "C26.mem.range.returns_the_number_of_records_visited");
+  __CPROVER_assert(g_rctx_begin == from && g_rctx_end == to, "C26.mem.range.context_carries_the_requested_range");
+  VACUITY_PROBE();
+}
 '''
 MAP = 'std::map<unsigned int, const std::basic_string<char>>'
 IT = r'std::_Rb_tree_const_iterator<std::pair<const unsigned int, const std::basic_string<char>>>'
@@ -145,6 +207,7 @@ UNIT = dict(
     emit=dict(
         pod=[r'std::pair<std::_Rb_tree_iterator<.*>, bool>', r'std::_Rb_tree_(const_)?iterator<.*>'],
         default_args={'str_from_bytes': {2: '0'}},
+        ptr_to_member_call='callback_invoke',
         bases={'FIX8::MemoryPersister': 'FIX8::Persister'},
         type_alias=[(r'FIX8::MemoryPersister::Store(::const_iterator)?', None)],
         type_map=[(r'(const )?(std::basic_string<char>|std::string|FIX8::f8String)', 'struct strm'),
@@ -153,14 +216,17 @@ UNIT = dict(
                   (r'std::pair<std::_Rb_tree_iterator<std::pair<const unsigned int, const std::basic_string<char>>>, bool>', 'struct pair_ib'),
                   (r'std::pair<const unsigned int, const std::basic_string<char>>', 'struct pair_us'),
                   (r'std::reverse_iterator<std::_Rb_tree_const_iterator<std::pair<const unsigned int, const std::basic_string<char>>>>', 'struct iter_m'),
-                  (r'std::allocator<char>', 'void *')],
-        lazy_structs=[r'FIX8::MemoryPersister', r'FIX8::Persister'],
+                  (r'std::allocator<char>', 'void *'), (r'FIX8::Session(?!::)', 'void'),
+                  (r'bool \(FIX8::Session::\*\)\(.*\)', 'long')],
+        lazy_structs=[r'FIX8::MemoryPersister', r'FIX8::Persister', r'FIX8::Session::RetransmissionContext'],
         calls={MAP + '::insert': dict(c='map_insert', sig='std::pair<iterator, bool> (std::pair<const unsigned int, const std::basic_string<char>> &&)'),
                MAP + '::find': dict(c='map_find', sig='iterator (const unsigned int &)'), MAP + '::end': 'map_end', MAP + '::empty': 'map_empty', MAP + '::erase': dict(c='map_erase', sig='size_type (const unsigned int &)'),
                'operator==': 'iter_eq', 'operator!=': 'iter_ne',
                'std::_Rb_tree_const_iterator<std::pair<const unsigned int, const std::basic_string<char>>>::operator->': 'iter_arrow',
                'std::_Rb_tree_iterator<std::pair<const unsigned int, const std::basic_string<char>>>::operator->': 'iter_arrow',
-               MAP + '::rbegin': 'map_rbegin',
+               MAP + '::rbegin': 'map_rbegin', IT + '::operator++': 'iter_inc', 'FIX8::Session::get_next_send_seq': 'ses_get_next_send_seq', 'FIX8::Session::RetransmissionContext::RetransmissionContext': 'rctx_ctor',
+               'FIX8::MemoryPersister::get_last_seqnum': dict(c='mper_get_last', sig='unsigned int (unsigned int &) const'), 'FIX8::MemoryPersister::find_nearest_highest_seqnum': 'mper_nearest',
+               'std::pair<const unsigned int, const std::basic_string<char>>::pair|void (int &&, const char (&)[1])': 'pair_us_ctor_int_cstr',
                'std::reverse_iterator<std::_Rb_tree_const_iterator<std::pair<const unsigned int, const std::basic_string<char>>>>::operator->': 'iter_arrow',
                'std::pair<const unsigned int, const std::basic_string<char>>::pair|void (int &&, std::basic_string<char> &&)': 'pair_us_ctor_int_str',
                'std::pair<const unsigned int, const std::basic_string<char>>::pair': 'pair_us_ctor_uint_str',
@@ -175,14 +241,22 @@ UNIT = dict(
         dict(q='FIX8::MemoryPersister::get', sig='bool (const unsigned int, FIX8::f8String &) const', cname='mper_get_msg'),
         dict(q='FIX8::MemoryPersister::get_last_seqnum', sig=None, cname='mper_get_last'),
         dict(q='FIX8::MemoryPersister::find_nearest_highest_seqnum', sig=None, cname='mper_nearest',
-             loops={0: dict(assigns='startseqnum, g_other', invariants=[('inv.scan', 'requested <= startseqnum && startseqnum <= last + 1u && (!(g_wpresent && requested <= g_wkey && g_wkey < startseqnum && g_wkey != 0) )')],
+             loops={0: dict(assigns='startseqnum, g_other, g_found_valid, g_found_key', invariants=[('inv.scan', 'requested <= startseqnum && startseqnum <= last + 1u && (!(g_wpresent && requested <= g_wkey && g_wkey < startseqnum && g_wkey != 0) )')],
                             decreases='last + 1u - startseqnum')}),
+        dict(q='FIX8::Session::RetransmissionContext::RetransmissionContext', sig=None, cname='rctx_ctor', self_type='FIX8::Session::RetransmissionContext *'),
+        dict(q='FIX8::MemoryPersister::get', sig='unsigned int (const unsigned int, const unsigned int, FIX8::Session &, bool (FIX8::Session::*)(const Session::SequencePair &, Session::RetransmissionContext &)) const', cname='mper_get_range',
+             loops={0: dict(assigns='itr, recs_sent, g_cursor, g_cb_records, g_cb_done, g_cb_lastkey, g_cb_order_ok, g_cb_w_count, g_cb_after_done, g_cb_w_data, g_rctx_begin, g_rctx_end',
+                            invariants=[('inv.iter', '!itr.end && itr.key >= 1u && itr.key >= from && itr.isw == (itr.key == g_wkey) && (!itr.isw || g_wpresent)'),
+                                        ('inv.count', 'g_cb_done == 0 && !g_cb_after_done && (unsigned)g_cb_records == recs_sent && recs_sent < itr.key && (recs_sent == 0u || (g_rctx_begin == from && g_rctx_end == to))'),
+                                        ('inv.order', 'g_cb_order_ok && g_cb_lastkey < itr.key && g_cb_lastkey <= finish'),
+                                        ('inv.witness', 'g_cb_w_count == ((g_wpresent && from <= g_wkey && g_wkey <= g_cb_lastkey) ? 1u : 0u) && (g_cb_w_count == 0u || g_cb_w_data == g_wentry.second.data) && !(g_wpresent && from <= g_wkey && g_cb_lastkey < g_wkey && g_wkey < itr.key)')])}),
     ],
     postlude=POST,
     proofs=[
         dict(name='put_get', harness='h_put_get', properties=['C26'], solvers=['cadical', 'z3'], timeout=dict(quick=300, thorough=900), floor=6, level='proved-modular'),
         dict(name='control', harness='h_control', properties=['C26'], solvers=['cadical', 'z3'], timeout=dict(quick=300, thorough=900), floor=2, level='proved-modular'),
         dict(name='last', harness='h_last', properties=['C26'], solvers=['cadical', 'z3'], timeout=dict(quick=300, thorough=900), floor=2, level='proved-modular'),
+        dict(name='range', harness='h_range', loop_contracts=True, properties=['C26', 'C18'], solvers=['cadical', 'z3'], timeout=dict(quick=600, thorough=1800), floor=5, level='proved-modular'),
         dict(name='nearest', harness='h_nearest', loop_contracts=True, properties=['C26'], solvers=['cadical', 'z3'], timeout=dict(quick=300, thorough=900), floor=2, level='proved-modular'),
     ],
     trusted_base=['ASSUMED: std::map<unsigned, const std::string> insert/find/end/empty/rbegin and std::string construction/copy/assignment/data behave as ISO C++ specifies, in the single-witness '
